@@ -1123,9 +1123,96 @@ def check_builtin(case, ctx):
 # --------------------------------------------------------------------------
 
 
+def check_partial_own(case, ctx):
+    """a module that brings only ONE of model / residual keeps it and gets the documented default for the
+    other one (register_model / NaniteFitModel / re-registration under the same key with another function)"""
+    import types
+    import lmfit
+    from nanite import model as nmodel
+    from nanite.model.core import NaniteFitModel
+
+    def make(part, power, key="c18_partial"):
+        m = types.ModuleType("c18_partial_" + part)
+        calls = []
+
+        def get_parameter_defaults():
+            p = lmfit.Parameters()
+            p.add("E", value=3e3, min=0)
+            p.add("contact_point", value=0)
+            p.add("baseline", value=0)
+            return p
+
+        def model_func(delta, E, contact_point=0, baseline=0):
+            d = contact_point - delta
+            return E * np.where(d > 0, d, 0.0) ** power + baseline
+
+        def own_model(params, x):
+            calls.append("model")
+            return model_func(x, **params.valuesdict()) + 1e-9      # recognisable: differs from the default
+
+        def own_residual(params, delta, force, weight_cp=5e-7):
+            calls.append("residual")
+            return (force - model_func(delta, **params.valuesdict())) * 2.0
+
+        m.get_parameter_defaults, m.model_func = get_parameter_defaults, model_func
+        m.model_doc, m.model_key, m.model_name = "partial", key, "c18 partial " + part
+        m.parameter_keys = ["E", "contact_point", "baseline"]
+        m.parameter_names = ["Young's Modulus", "Contact Point", "Force Baseline"]
+        m.parameter_units = ["Pa", "m", "N"]
+        m.valid_axes_x, m.valid_axes_y = ["tip position"], ["force"]
+        if part in ("model", "both"):
+            m.model = own_model
+        if part in ("residual", "both"):
+            m.residual = own_residual
+        return m, calls, own_model, own_residual, model_func
+
+    part, power = case["part"], case["power"]
+    ctx.note_case(case, nontrivial=True, classes=["partial_own", "partial_own:" + part])
+    desc = {"wrappers": "own-" + part, "route": case["route"]}
+    x = np.linspace(1e-6, -1e-6, 41)
+    force = np.linspace(0, 1e-9, 41)
+    before = dict(nmodel.models_available)
+    try:
+        if case["route"] == "reregister":
+            # another module was registered under this key before (default wrappers, other force law)
+            m0, *_ = make("none", power + 0.5)
+            nmodel.register_model(m0)
+            nmodel.models_available[m0.model_key].model(m0.get_parameter_defaults(), x)
+            nmodel.deregister_model(nmodel.models_available[m0.model_key])
+        m, calls, own_model, own_residual, func = make(part, power)
+        md = nmodel.register_model(m) if case["route"] != "instance" else NaniteFitModel(m)
+        p = m.get_parameter_defaults()
+        f = md.model(p, x)
+        r = md.residual(p, x, force, 0)
+        plain = func(x, **p.valuesdict())
+        if part in ("model", "both"):
+            ctx.check(md.model is own_model and "model" in calls and np.array_equal(f, plain + 1e-9),
+                      "own-functions-replaced", desc, "the module's own model() was replaced or not used")
+        else:
+            ctx.check(np.array_equal(f, plain), "default-wrappers", desc, "default model wrapper differs from model_func")
+        if part in ("residual", "both"):
+            ctx.check(md.residual is own_residual and "residual" in calls and np.array_equal(r, (force - plain) * 2.0),
+                      "own-functions-replaced", desc, "the module's own residual() was replaced or not used")
+        else:
+            ctx.check(np.allclose(r, force - plain, rtol=1e-12, atol=0), "default-wrappers", desc,
+                      "default residual wrapper is not force - model_func (weights off)")
+    finally:
+        for k in list(nmodel.models_available):
+            if k not in before:
+                nmodel.models_available.pop(k)
+
+
+def partial_cases():
+    for part in ("none", "model", "residual", "both"):
+        for route in ("register", "instance", "reregister"):
+            for power in (1.5, 2.0):
+                yield {"kind": "partial_own", "part": part, "route": route, "power": power}
+
+
 def run(ctx):
     if ctx.shard == 0:
         ctx.direct(check_builtin, {"kind": "builtin"}, label="builtin")
+    ctx.enumerate(partial_cases(), check_partial_own, label="partial-own", stop_after=6)
     ctx.enumerate(pinned_histories(), check_history, label="history-pinned", stop_after=40)
     ctx.enumerate(mutant_cases(), check_mutant, label="mutant-enum", stop_after=12)
     ctx.hypothesis(st_mutant(), check_mutant, ctx.scale(2000, 20000), label="mutant")
@@ -1137,7 +1224,7 @@ def run(ctx):
 def replay(case, ctx):
     kind = case.get("kind") if isinstance(case, dict) else None
     fn = {"mutant": check_mutant, "history": check_history, "equiv": check_equiv, "anc": check_anc,
-          "builtin": check_builtin}.get(kind)
+          "builtin": check_builtin, "partial_own": check_partial_own}.get(kind)
     if fn is None:
         raise HarnessError(f"C18 replay: unknown case kind {kind!r}")
     fn(case, ctx)
